@@ -17,7 +17,7 @@ scalar JSON
 type Human implements Node { id: ID! name(upper: Boolean): String! friends: [Human!]! best: Human age: Int tag(meta: JSON): String }
 input TagIn { label: String weight: Int }
 input HumanIn { name: String tags: [TagIn!] }
-type Query { node(id: ID!): Node getHumans: [Human!]! me: Human findHumans(filter: [HumanIn!], grid: [[Int]]): [Human!]! }
+type Query { node(id: ID!): Node getHumans: [Human!]! me: Human findHumans(filter: [HumanIn!], grid: [[Int]], first: Int): [Human!]! }
 type Mutation { saveHuman(name: String!): Human! }
 `
 const vSB = `
@@ -144,6 +144,10 @@ func vReadmeOps() []vOp {
 		}},
 		// an explicit null is a value: the declared default does not replace it
 		{q: `query($c: Int = 4, $u: Boolean = true) { me { phone(cc: $c) name(upper: $u) } }`, vars: func() map[string]interface{} { return map[string]interface{}{"c": nil} }},
+		// a variable argument after an object / list literal argument of the same field
+		{q: `query($k: Int) { findHumans(filter: [{name: "lit"}], grid: [[1]], first: $k) { name phone } }`, vars: func() map[string]interface{} {
+			return map[string]interface{}{"k": verifInt("var_k", 0, 9)}
+		}},
 		{q: `query($c: Int = 4) { me { phone(cc: $c) } }`, vars: func() map[string]interface{} { return map[string]interface{}{"c": verifInt("var_c", 0, 9)} }},
 	}
 }
